@@ -289,6 +289,27 @@ class Program:
                 self.type_alias[it[1]] = it[2].split("<")[0].strip().split("::")[-1].strip()
 
 
+class MutRef:
+    """`&mut` to a scalar slot of a map (HashMap::get_mut on a map of numbers): `*r` reads the slot, `*r = v` / `*r += v` write it"""
+
+    def __init__(self, container, key):
+        self.container = container
+        self.key = key
+
+    def get(self):
+        return self.container[self.key]
+
+    def set(self, v):
+        self.container[self.key] = v
+
+    def __repr__(self):
+        return "&mut %r" % (self.get(),)
+
+
+def unref(v):
+    return v.get() if isinstance(v, MutRef) else v
+
+
 class SliceView(list):
     """a mutable sub-slice (split_at_mut): a copy of base[lo:hi] whose writes go through to the base vector"""
 
@@ -604,6 +625,7 @@ class Interp:
 
     # ---------------- primitive operations ----------------
     def eq(self, a, b):
+        a, b = unref(a), unref(b)
         if isinstance(a, SymEnum) or isinstance(b, SymEnum):
             if isinstance(a, SymEnum) and isinstance(b, SymEnum):
                 r = False
@@ -660,6 +682,7 @@ class Interp:
         return to_bv(a) == to_bv(b)
 
     def cmp(self, op, a, b):
+        a, b = unref(a), unref(b)
         if isinstance(a, Uninterp) or isinstance(b, Uninterp):
             if self.lenient:
                 return self.opaque_bool(Uninterp(op, [a, b]))
@@ -707,6 +730,7 @@ class Interp:
         return z3.Not(a)
 
     def arith(self, op, a, b):
+        a, b = unref(a), unref(b)
         if isinstance(a, Uninterp) or isinstance(b, Uninterp):
             if self.lenient:
                 return self.mk_opaque(op, [a, b])
@@ -904,7 +928,7 @@ class Interp:
         return self.eval(e[1], env)
 
     def ev_deref(self, e, env):
-        return self.eval(e[1], env)
+        return unref(self.eval(e[1], env))
 
     def ev_await(self, e, env):
         return self.eval(e[1], env)
@@ -1023,7 +1047,10 @@ class Interp:
                 raise Unsupported("field assignment on %r" % (obj,))
             obj[lhs[2]] = v
         elif k == "deref":
-            self.assign(lhs[1], v, env)
+            if lhs[1][0] == "path" and len(lhs[1][1]) == 1 and env.has(lhs[1][1][0]) and isinstance(env.lookup(lhs[1][1][0]), MutRef):
+                env.lookup(lhs[1][1][0]).set(v)
+            else:
+                self.assign(lhs[1], v, env)
         elif k == "index":
             obj = self.eval(lhs[1], env)
             i = self.eval(lhs[2], env)
@@ -1429,6 +1456,7 @@ class Interp:
 
     # ---------------- methods ----------------
     def method(self, recv, name, args):
+        recv = unref(recv)
         ty = getattr(recv, "ty", None)
         if (ty, name) in self.models:
             return self.models[(ty, name)](self, recv, args)
@@ -1832,6 +1860,9 @@ class Interp:
             k = args[0]
             if is_sym(k):
                 raise Unsupported("symbolic map key")
+            if name == "get_mut" and k in recv and (isinstance(recv[k], (int, float, bool, str)) or is_sym(recv[k])):
+                # a scalar slot: writes through `*r = ..` must reach the map
+                return Some(MutRef(recv, k))
             return Some(recv[k]) if k in recv else NONE
         if name == "contains_key":
             if is_sym(args[0]):
